@@ -491,5 +491,21 @@ def r03_7(ctx):
             ctx.ok(construct, f.loc(br[name][0]), exits=len(fl.exits))
 
 
+def r03_8(ctx):
+    """R03.8 `_write_to_conf` is a side result of the evaluation too: every path of Symbol.str_value that stores a freshly
+    computed value into the cache has assigned `_write_to_conf` first (a shortcut that returns before `_write_to_conf =
+    vis != 0` leaves the flag of an earlier evaluation: the option keeps being written after it became invisible)."""
+    from .common import must_precede
+    repo = ctx.repo
+    f = repo.func(f"{CORE}:Symbol.str_value")
+    ctx.analysed(f.qual)
+    stores = [n for n in ast.walk(f.node) if isinstance(n, ast.Assign) and any(ast.unparse(t) == "self._cached_str_val" for t in n.targets)
+              and "bool_value" not in ast.unparse(n.value) and ast.unparse(n.value) != "self.name"]  # bool: delegated; UNKNOWN type: its own name, never written
+    if not stores:
+        raise AnchorError("Symbol.str_value: no store into _cached_str_val")
+    must_precede(ctx, f, lambda n: isinstance(n, ast.Assign) and any(ast.unparse(t) == "self._write_to_conf" for t in n.targets), stores,
+                 lambda i, s_: f"Symbol.str_value/cache store #{i + 1} happens after _write_to_conf was assigned",
+                 "the value is cached on a path that has not (re)computed _write_to_conf: config_string keeps using the flag of the previous evaluation")
+
 def rules():
-    return [("R03.7", r03_7, 3), ("R03.1", r03_1, 14), ("R03.2", r03_2, 9), ("R03.3", r03_3, 7), ("R03.4", r03_4, 4), ("R03.5", r03_5, 8), ("R03.6", r03_6, 5)]
+    return [("R03.8", r03_8, 1), ("R03.7", r03_7, 3), ("R03.1", r03_1, 14), ("R03.2", r03_2, 9), ("R03.3", r03_3, 7), ("R03.4", r03_4, 4), ("R03.5", r03_5, 8), ("R03.6", r03_6, 5)]
